@@ -226,8 +226,9 @@ func compareTranscripts(r *vlib.Run, g *Group, a, m *Transcript, report bool) ou
 }
 
 const (
-	sigTruncation  = "truncation/decoded-path-length-estimate-exceeds-packed-size"
-	sigHopPrefetch = "chase-hop-prefetch/wire-composer-skips-hop-refresh"
+	sigTruncation     = "truncation/decoded-path-length-estimate-exceeds-packed-size"
+	sigTruncationCase = "truncation/decoded-path-case-sensitive-compression-over-limit"
+	sigHopPrefetch    = "chase-hop-prefetch/wire-composer-skips-hop-refresh"
 )
 
 // udpLimit is the reply size the server allows a UDP client that sent pkt:
@@ -286,6 +287,36 @@ func explainTruncation(ds []Diff, x, y Canon, proto, reqHex string) []Diff {
 	// record name in the stored (lower-case) spelling under the client's
 	// question.
 	m.Compress = true
+	// A second, different mechanism (FINDINGS.md #5) is recognised first: the
+	// decoded path's own message — stored spelling under the client's
+	// mixed-case question — really does not fit once packed, because the
+	// library's compression is case-sensitive and none of the stored
+	// (lower-case) names can point into the client's question, while the byte
+	// path rewrites the stored question in place and keeps every pointer into
+	// it. Accepted only when everything is re-measured: the question is not
+	// all lower-case, the stored spelling packs over the limit, and the very
+	// same message packs within it once the question is lower-cased too.
+	if len(m.Question) == 1 && m.Question[0].Name != strings.ToLower(m.Question[0].Name) {
+		stored := storedSpelling(m)
+		sp, serr := stored.Pack()
+		lowq := stored.Copy()
+		lowq.Compress = true
+		lowq.Question[0].Name = strings.ToLower(lowq.Question[0].Name)
+		lp, lerr := lowq.Pack()
+		if serr == nil && lerr == nil && len(sp) > limit && len(lp) <= limit {
+			var out []Diff
+			for _, d := range ds {
+				switch {
+				case d.Field == "header.TC", d.Field == "header.AD", strings.HasPrefix(d.Field, "section."), strings.HasPrefix(d.Field, "ttl."):
+				default:
+					out = append(out, d)
+				}
+			}
+			return append(out, Diff{Field: "truncation", Soft: true, Sig: sigTruncationCase,
+				Detail: fmt.Sprintf("byte path sent the whole reply (%d octets), decoded path sent TC=1 with empty sections; client limit %d; the decoded path's message (stored spelling under the client's mixed-case question %q) packs into %d octets because the library's compression is case-sensitive, and into %d octets under an all-lower-case question",
+					len(raw), limit, m.Question[0].Name, len(sp), len(lp))})
+		}
+	}
 	variants := []*dns.Msg{m, storedSpelling(m)}
 	var est, packedLen int
 	explained := false
